@@ -187,6 +187,7 @@ def eval_case(case):
         prop = PopulationPropagator(ta, rmat)
         worst = 0.0
         corr = case.get("corr") or [-1]
+        held = []        # results handed out earlier, kept by the caller without copying
         for idx, (s, m, L) in enumerate(case["subs"]):
             sub = qr.TimeAxis(t0 + s * dt, L, m * dt)
             if not sub.is_subset_of(ta):
@@ -208,6 +209,14 @@ def eval_case(case):
             err = max(float(numpy.max(numpy.abs(U[:, :, i] -
                       scipy.linalg.expm(K * ((s + i * m) * dt))))) for i in range(L))
             worst = max(worst, err)
+            for (j, Uold, copy_) in held:
+                if not numpy.array_equal(Uold, copy_):
+                    viol.append(("propagation-matrix/earlier-result-changed-by-later-request",
+                                 "%s: the matrix returned for request #%d changed when request "
+                                 "#%d was served" % (case["gen"], j, idx), None))
+                    held = []
+                    break
+            held.append((idx, U, numpy.array(U, copy=True)))
             if not numpy.isfinite(err) or err > 1e-9:
                 viol.append(("propagation-matrix/depends-on-earlier-requests/%s" % gk,
                              "%s: request #%d (start index %d, stride %d, length %d) on a "
@@ -266,7 +275,8 @@ def grid_cases(tier):
     # the last three: steps that are not dyadic fractions (quotients of commensurate steps are
     # then not exact in floating point)
     axes = [(20, 1.0, 0.0), (21, 5.0, 0.0), (20, 0.5, 10.0), (25, 0.7, 0.0), (25, 0.1, 0.0),
-            (25, 0.3, 0.0), (300, 4.0, 0.0)]      # the last one runs into equilibrium
+            (25, 0.3, 0.0), (300, 4.0, 0.0),      # this one runs into equilibrium
+            (20, 1.0, 0.5), (25, 0.1, 0.05), (20, 1.0, -0.3)]   # start not a multiple of the step
     if tier == "thorough":
         axes += [(101, 1.0, 0.0), (50, 2.0, -20.0), (33, 0.25, 3.0)]
     for g in GENERATORS:
